@@ -1,0 +1,89 @@
+//! Channel / `Notify` facades for the actor core: same API as the tokio types the actor
+//! properties use, with a scheduling point inside every send / notify / `notified()` call, so
+//! that the points stay attached to the operations wherever the calling code moves them.
+//! Receivers are the real tokio receivers.
+#![allow(missing_docs)]
+
+pub use crate::concurrency::*;
+
+use super::point;
+use super::PointKind;
+
+/// `tokio::sync::Notify` with scheduling points
+#[derive(Debug, Default)]
+pub struct Notify(tokio::sync::Notify);
+
+impl Notify {
+    pub fn new() -> Self {
+        Self(tokio::sync::Notify::new())
+    }
+    fn id(&self) -> usize {
+        self as *const Self as usize
+    }
+    pub fn notified(&self) -> tokio::sync::futures::Notified<'_> {
+        point(PointKind::Notify, "notify.notified", self.id());
+        self.0.notified()
+    }
+    pub fn notify_waiters(&self) {
+        point(PointKind::Notify, "notify.notify_waiters", self.id());
+        self.0.notify_waiters()
+    }
+    pub fn notify_one(&self) {
+        point(PointKind::Notify, "notify.notify_one", self.id());
+        self.0.notify_one()
+    }
+}
+
+/// Unbounded sender with a scheduling point before `send`
+#[derive(Debug)]
+pub struct MpscUnboundedSender<T>(tokio::sync::mpsc::UnboundedSender<T>);
+
+impl<T> Clone for MpscUnboundedSender<T> {
+    fn clone(&self) -> Self {
+        Self(self.0.clone())
+    }
+}
+
+impl<T> MpscUnboundedSender<T> {
+    fn id(&self) -> usize {
+        self as *const Self as usize
+    }
+    pub fn send(&self, v: T) -> Result<(), tokio::sync::mpsc::error::SendError<T>> {
+        point(PointKind::Channel, "mpsc.send", self.id());
+        self.0.send(v)
+    }
+    pub fn is_closed(&self) -> bool {
+        point(PointKind::Channel, "mpsc.is_closed", self.id());
+        self.0.is_closed()
+    }
+    pub async fn closed(&self) {
+        self.0.closed().await
+    }
+}
+
+pub fn mpsc_unbounded<T>() -> (MpscUnboundedSender<T>, MpscUnboundedReceiver<T>) {
+    let (tx, rx) = tokio::sync::mpsc::unbounded_channel();
+    (MpscUnboundedSender(tx), rx)
+}
+
+/// One-shot sender with a scheduling point before `send`
+#[derive(Debug)]
+pub struct OneshotSender<T>(tokio::sync::oneshot::Sender<T>);
+
+impl<T> OneshotSender<T> {
+    pub fn send(self, v: T) -> Result<(), T> {
+        point(PointKind::Channel, "oneshot.send", &self as *const Self as usize);
+        self.0.send(v)
+    }
+    pub fn is_closed(&self) -> bool {
+        self.0.is_closed()
+    }
+    pub async fn closed(&mut self) {
+        self.0.closed().await
+    }
+}
+
+pub fn oneshot<T>() -> (OneshotSender<T>, OneshotReceiver<T>) {
+    let (tx, rx) = tokio::sync::oneshot::channel();
+    (OneshotSender(tx), rx)
+}
